@@ -199,7 +199,11 @@ pub const SHARDS: usize = 16;
 
 pub fn run(ctx: &Ctx) -> Report {
     if ctx.shard.is_none() {
-        return run_sharded(ctx, SHARDS, SHARDS);
+        let mut rep = run_sharded(ctx, SHARDS, SHARDS);
+        if ctx.tier == Tier::Thorough {
+            super::fuzzplay::campaign(ctx, "C07", &mut rep);
+        }
+        return rep;
     }
     let mut rep = Report::new();
     let corp = corpus::load(&ctx.verif);
